@@ -66,7 +66,8 @@ func (ex *Exec) decMulWith(a, b *smt.Term, round func(*smt.Term) *smt.Term, tag 
 }
 
 func (ex *Exec) decQuoWith(a, b *smt.Term, round func(*smt.Term) *smt.Term, tag string) *smt.Term {
-	if ex.branch(smt.Eq(b, smt.IntC(0))) {
+	// in a specification expression the quotient by zero is just an unspecified value
+	if !ex.specArith && ex.branch(smt.Eq(b, smt.IntC(0))) {
 		ex.goPanic("Dec division by zero")
 	}
 	if isConst(b) || !ex.Cfg.DecAbstract {
